@@ -459,7 +459,7 @@ func genReexpress(r *Rng, id int, tier string) *Sx {
 func genShuffle(r *Rng, id int, tier string) *Sx {
 	// namedOnIPPct 0: whether the documented named-port-on-IP error is raised depends on the rule order
 	// (a rule allowing everything ends the walk before the named port is met); kept out of this relation
-	cfg := &genCfg{anp: r.P(50), banp: true, pods: true, ingress: r.P(25), podPortsVary: true, complementPct: 8, namedOnIPPct: 8, samePrioPct: 12, maxNP: 4, maxWl: 5}
+	cfg := &genCfg{anp: r.P(50), banp: true, pods: true, ingress: r.P(25), podPortsVary: true, complementPct: 8, namedOnIPPct: 8, samePrioPct: 12, dashTwinPct: 10, maxNP: 4, maxWl: 5}
 	a := genWorld(r, cfg)
 	b := cloneWorld(a)
 	Shuffle(r, b.Objs)
